@@ -36,15 +36,27 @@ def name2unicode(name: str) -> str:
     components = name.split("_")
 
     if len(components) > 1:
-        return "".join(map(name2unicode, components))
+        # A component without a Unicode value maps to the empty string; the
+        # other components still contribute (AGL specification, section 2).
+        characters = []
+        for component in components:
+            try:
+                characters.append(name2unicode(component))
+            except KeyError:
+                pass
+        if characters:
+            return "".join(characters)
 
     elif name in glyphname2unicode:
         return glyphname2unicode[name]
 
     elif name.startswith("uni"):
-        name_without_uni = name.strip("uni")
+        name_without_uni = name[len("uni") :]
 
-        if HEXADECIMAL.match(name_without_uni) and len(name_without_uni) % 4 == 0:
+        if (
+            HEXADECIMAL.fullmatch(name_without_uni)
+            and len(name_without_uni) % 4 == 0
+        ):
             unicode_digits = [
                 int(name_without_uni[i : i + 4], base=16)
                 for i in range(0, len(name_without_uni), 4)
@@ -55,9 +67,9 @@ def name2unicode(name: str) -> str:
             return "".join(characters)
 
     elif name.startswith("u"):
-        name_without_u = name.strip("u")
+        name_without_u = name[len("u") :]
 
-        if HEXADECIMAL.match(name_without_u) and 4 <= len(name_without_u) <= 6:
+        if HEXADECIMAL.fullmatch(name_without_u) and 4 <= len(name_without_u) <= 6:
             unicode_digit = int(name_without_u, base=16)
             raise_key_error_for_invalid_unicode(unicode_digit)
             return chr(unicode_digit)
@@ -70,7 +82,7 @@ def name2unicode(name: str) -> str:
 
 def raise_key_error_for_invalid_unicode(unicode_digit: int) -> None:
     """Unicode values should not be in the range D800 through DFFF because
-    that is used for surrogate pairs in UTF-16
+    that is used for surrogate pairs in UTF-16, and not above 10FFFF
 
     :raises KeyError if unicode digit is invalid
     """
@@ -78,6 +90,11 @@ def raise_key_error_for_invalid_unicode(unicode_digit: int) -> None:
         raise PDFKeyError(
             "Unicode digit %d is invalid because "
             "it is in the range D800 through DFFF" % unicode_digit,
+        )
+    if unicode_digit > 0x10FFFF:
+        raise PDFKeyError(
+            "Unicode digit %d is invalid because "
+            "it is above 10FFFF" % unicode_digit,
         )
 
 
